@@ -38,6 +38,14 @@ def handle : List String → Option String
   | ["msglang", t, a, q] => do
     let r := msgLang (← parsePair t) (← parsePair a) (← parsePair q)
     some (match r with | some l => s!"lang {l}" | none => "nolang")
+  | ["saymsg", cl, allowed, fl, text, audio, trsT, trsA] => do
+    let c : Cfg := ⟨← parseOptLang cl, ← parseLangs allowed, ← fl.toNat?⟩
+    let text ← parseTexts text
+    let audio ← parseTexts audio
+    let tt ← parseTrs trsT
+    let ta ← parseTrs trsA
+    let r := sayMsg c (fun l => tt.lookup l) (fun l => ta.lookup l) (text.headD []) (audio.headD [])
+    some s!"lang {r.2.2} text {showTexts [r.1]} audio {showTexts [r.2.1]}"
   | ["caseargs", base, loc] => do
     some ("args " ++ showTexts (caseArgs (← parseTexts base) (← parseTexts loc)))
   | _ => none
